@@ -109,6 +109,9 @@ def run(ctx):
         if i.get("self_adt"):
             sink_adts.add(i["self_adt"])
     takepend_rule(ctx, c, R_TP, sink_adts, "sinktools")
+    R_RS = ctx.rule("C14.retrysafe", "drain loops: no own-state write between the loop head and the inner sink's readiness check of the same iteration", floor=1)
+    from p_C11 import retrysafe_rule
+    retrysafe_rule(ctx, c, R_RS, sink_adts)
     R_SI = ctx.rule("C14.stateitem", "a state variant that buffers an item is overwritten only after the item was taken out of it", floor=4)
     stateitem_rule(ctx, c, R_SI)
     R_ERR = ctx.rule("C14.err", "no Result of an inner sink operation is discarded", floor=10)
